@@ -192,6 +192,20 @@ def events(nitems):
         def iadd(t, it, a=a):
             t += [it[a]]
         ev.append(('iadd(%d)' % a, iadd))
+
+        # edits a plain list refuses for some states (extended slice of another length, index out of range): the
+        # vector must refuse them too and stay exactly as it was - later edits are judged from that state
+        def setstep3(t, it, a=a):
+            t[::2] = [it[a]] * 3
+        ev.append(('set[::2]=(%d)x3' % a, setstep3))
+
+        def setstep_same(t, it, a=a):
+            t[1::2] = [it[a]] * len(range(*slice(1, None, 2).indices(len(t))))
+        ev.append(('set[1::2]=(%d)xfit' % a, setstep_same))
+
+        def set_beyond(t, it, a=a):
+            t[len(t) + 5] = it[a]
+        ev.append(('set[len+5]=%d' % a, set_beyond))
     ev.append(('pop()', lambda t, it: t.pop()))
     ev.append(('pop(0)', lambda t, it: t.pop(0)))
 
@@ -215,6 +229,10 @@ def events(nitems):
 
     def s02(t, it):
         t[0:2] = []
+    def dbeyond(t, it):
+        del t[len(t) + 5]
+
+    ev += [('del[len+5]', dbeyond), ('pop(len+5)', lambda t, it: t.pop(len(t) + 5))]
     ev += [('del[0]', d0), ('del[-1]', dm1), ('del[:]', dall), ('del[0:1]', d01), ('del[1:]', d1_),
            ('del[::2]', dstep), ('set[0:2]=()', s02), ('reverse()', lambda t, it: t.reverse()),
            ('clear()', lambda t, it: t.clear())]
